@@ -89,6 +89,7 @@ func RunJob(j *Job) *Result {
 		lim.Classify = func(path []Event, v *Violation) string {
 			return ClassifyKnown(j.Sc, mf, path, choices, v.Prop)
 		}
+		lim.Determinism = j.Prop == "C19"
 		switch j.Strategy {
 		case "bfs":
 			lim.OnState = onState
@@ -100,6 +101,9 @@ func RunJob(j *Job) *Result {
 		}
 		// confirm every violation by re-executing it five times on fresh objects
 		for _, f := range res.Found {
+			if f.V.Prop == "C19" {
+				continue // the violation is a divergence between two executions of the same path
+			}
 			for k := 0; k < 5; k++ {
 				if !reproduces(j, f) {
 					res.HarnessErr = fmt.Sprintf("violation %s does not reproduce on replay %d: %v", f.V, k, f.Path)
@@ -311,6 +315,37 @@ func Check(prop, tier string, verifDir string, self string, procs int, budgetS f
 				fmt.Printf("  %s\n", f.V)
 			}
 		}
+	}
+	if prop == "C19" {
+		// cross-process comparison: the two runs of every scenario must agree on
+		// every state key and every output hash
+		byName := map[string]jobResult{}
+		for _, jr := range results {
+			if jr.res != nil {
+				byName[jr.job.Name] = jr
+			}
+		}
+		pairs := 0
+		for name, a := range byName {
+			b, ok := byName[name+"#2"]
+			if !ok {
+				continue
+			}
+			if strings.Contains(strings.Join(a.res.Caps, " ")+strings.Join(b.res.Caps, " "), "deadline") {
+				counters["cross_process_pairs_skipped_deadline"]++
+				continue
+			}
+			pairs++
+			if a.res.Digest != b.res.Digest || a.res.States != b.res.States {
+				violations++
+				rf := map[string]any{"Property": "C19", "Oracle": "cross-process", "Scenario": name, "DigestA": a.res.Digest, "DigestB": b.res.Digest, "StatesA": a.res.States, "StatesB": b.res.States}
+				bb, _ := json.MarshalIndent(rf, "", " ")
+				p := filepath.Join(verifDir, "replays", "C19-crossprocess-"+strings.ReplaceAll(name, "/", "_")+".json")
+				os.WriteFile(p, bb, 0o644)
+				fmt.Printf("VIOLATION property=C19 replay=%s\n  two processes exploring %s disagree on states/outputs (%s vs %s)\n", p, name, a.res.Digest, b.res.Digest)
+			}
+		}
+		counters["cross_process_pairs_compared"] = pairs
 	}
 	if len(harnessErrs) > 0 {
 		agg.exhaustive = false
